@@ -244,10 +244,6 @@ def dropTrailingEmpty {α} (pieces : List (List α)) : List (List α) :=
   | some [] => pieces.dropLast
   | _ => pieces
 
-def nodupStr : List String → Bool
-  | [] => true
-  | a :: r => !r.contains a && nodupStr r
-
 /-- the pieces of a call's argument list: positional first, then `k=v`, no keyword twice -/
 def splitCallArgs {L} (ps : List (Option String × Arg L)) :
     Option (List (Arg L) × List (String × Arg L)) :=
@@ -255,8 +251,23 @@ def splitCallArgs {L} (ps : List (Option String × Arg L)) :
   let rest := ps.dropWhile (fun p => p.1.isNone)
   if rest.all (fun p => p.1.isSome) then
     let kws : List (String × Arg L) := rest.filterMap (fun p => p.1.map (fun k => (k, p.2)))
-    if nodupStr (kws.map (fun p => p.1)) then some (pos.map (fun p => p.2), kws) else none
+    if ((kws.map (fun p => p.1) : List String)).Nodup then some (pos.map (fun p => p.2), kws) else none
   else none     -- SyntaxError: positional argument follows keyword argument
+
+def slice3 {L} (a b c : Option (Option (Arg L))) : Option (Item L) :=
+  match a, b, c with
+  | some a', some b', some c' => some (.slice a' b' c')
+  | _, _, _ => none
+
+def consOpt {α} (a : Option α) (r : Option (List α)) : Option (List α) :=
+  match a, r with
+  | some x, some l => some (x :: l)
+  | _, _ => none
+
+def callOf {L} (ps : Option (List (Option String × Arg L))) : Option (Step L) :=
+  match ps with
+  | some ps => (splitCallArgs ps).map (fun ak => Step.call ak.1 ak.2)
+  | none => none
 
 /-! termination of the parser: the pieces of a split are no bigger than the whole -/
 
@@ -345,19 +356,15 @@ mutual
     | [a, b] =>
       have ha : sizeOf a ≤ sizeOf toks := splitOn_sizeOf _ _ a (by rw [h]; simp)
       have hb : sizeOf b ≤ sizeOf toks := splitOn_sizeOf _ _ b (by rw [h]; simp)
-      match (if a.isEmpty then some none else (parseArg a).map some),
-            (if b.isEmpty then some none else (parseArg b).map some) with
-      | some a', some b' => some (.slice a' b' none)
-      | _, _ => none
+      slice3 (if a.isEmpty then some none else (parseArg a).map some)
+             (if b.isEmpty then some none else (parseArg b).map some) (some none)
     | [a, b, c] =>
       have ha : sizeOf a ≤ sizeOf toks := splitOn_sizeOf _ _ a (by rw [h]; simp)
       have hb : sizeOf b ≤ sizeOf toks := splitOn_sizeOf _ _ b (by rw [h]; simp)
       have hc : sizeOf c ≤ sizeOf toks := splitOn_sizeOf _ _ c (by rw [h]; simp)
-      match (if a.isEmpty then some none else (parseArg a).map some),
-            (if b.isEmpty then some none else (parseArg b).map some),
-            (if c.isEmpty then some none else (parseArg c).map some) with
-      | some a', some b', some c' => some (.slice a' b' c')
-      | _, _, _ => none
+      slice3 (if a.isEmpty then some none else (parseArg a).map some)
+             (if b.isEmpty then some none else (parseArg b).map some)
+             (if c.isEmpty then some none else (parseArg c).map some)
     | _ => none
   termination_by (sizeOf toks, 2)
   decreasing_by all_goals parse_dec
@@ -377,10 +384,8 @@ mutual
   def parseCall {L} (toks : List (Tok L)) : Option (Step L) :=
     if toks.isEmpty then some (.call [] [])
     else
-      match allSome ((dropTrailingEmpty (splitOn Tok.isComma toks)).attach.map (fun ⟨p, _hp⟩ =>
-          (parseArg (stripKw p).2).map (fun a => ((stripKw p).1, a)))) with
-      | some ps => (splitCallArgs ps).map (fun ak => Step.call ak.1 ak.2)
-      | none => none
+      callOf (allSome ((dropTrailingEmpty (splitOn Tok.isComma toks)).attach.map (fun ⟨p, _hp⟩ =>
+          (parseArg (stripKw p).2).map (fun a => ((stripKw p).1, a)))))
   termination_by (sizeOf toks, 3)
   decreasing_by all_goals parse_dec
   /-- the operations applied to a root, each recorded by the TType overload it triggers -/
@@ -394,14 +399,8 @@ mutual
     | .dot n :: r =>
       if isDunder n then none      -- TType.__getattr__: 'T instances reserve dunder attributes'
       else (parseSteps r).map (Step.attr n :: ·)
-    | .br ch :: r =>
-      match parseIndex ch, parseSteps r with
-      | some st, some rest => some (st :: rest)
-      | _, _ => none
-    | .par ch :: r =>
-      match parseCall ch, parseSteps r with
-      | some st, some rest => some (st :: rest)
-      | _, _ => none
+    | .br ch :: r => consOpt (parseIndex ch) (parseSteps r)
+    | .par ch :: r => consOpt (parseCall ch) (parseSteps r)
     | _ => none
   termination_by toks => (sizeOf toks, 0)
   decreasing_by all_goals parse_dec
